@@ -8,6 +8,8 @@ RULE = ("bounded-exhaustive histories over a 14-operation alphabet (8 list mutat
         "cache-filling flag class: 0x41 fills all three slots, 0x42 and 0x43 the prevouts slot, 0xc1 the outputs slot) up to length 3 "
         "(quick: all of length <= 2 and a sample of length 3) / 4 (thorough: all of length <= 3, of length 4 every history that ends in a sighash step after an earlier one, plus a sample), targeted histories [sighash f k; mutator at position k-1/k/k+1 (single or bulk, inputs or outputs); sighash f k; sighash 0x41] for 12 flags x 3 indices, "
         "every other &mut self entry point (add_inputs/add_outputs incl. empty, public hash_inputs, sign, sign_with_k, get_outpoints, the clones returned by set_version/set_nlocktime), "
+        "two live objects (fork = clone with copied cache, swap; mutate one, query the other, both directions), starting states new / default / "
+        "re-parsed through bytes, hex, JSON and CBOR, "
         "random histories of length 5-60 over all 14 flags, clone, "
         "all mutators with in-range positions, out-of-range sighash indices, and a few panicking (API misuse) histories; every step compares "
         "preimage, serialisation, fresh-copy preimage and the three cache slots (hook); non-trivial = the history contains a sighash "
@@ -125,7 +127,7 @@ def random_history(rng, n):
             elif c == 3:
                 o = "go"
             elif c == 4:
-                o = "svc.%d" % rng.randrange(2 ** 32)
+                o = rng.choice(["svc.%d" % rng.randrange(2 ** 32), "fk", "sw", "sw", "fb", "fh", "fj", "fc"])
             elif c == 5:
                 o = "slc.%d" % rng.randrange(2 ** 32)
             else:
@@ -175,6 +177,21 @@ def generate(rng, tier):
         for sg in ("sg", "sk"):
             Hs(["%s.%d.1.76a9.1000" % (sg, f), "so.1." + out_fields(rng, 67), "%s.%d.1.76a9.1000" % (sg, f), "si.1." + in_fields(rng, 68), "%s.%d.1.76a9.1000" % (sg, f), "%s.%d.7.76a9.1000" % (sg, f)], t33)
         Hs(["sh.%d.0.76a9.1000" % f, "svc.9", "go", "slc.77", "cl", "sh.%d.0.76a9.1000" % f, "sh.65.0.76a9.1000"], t33)
+    # two live objects: the clone carries a copy of the cache; mutating one must not disturb the other, in both directions
+    for f in [65, 66, 67, 193, 195, 1]:
+        sh = "sh.%d.0.76a9.1000" % f
+        for m in ["so.0." + out_fields(rng, 71), "si.0." + in_fields(rng, 72), "ao." + out_fields(rng, 73), "ai." + in_fields(rng, 74),
+                  "aos." + out_elem(rng, 75), "ais." + in_elem(rng, 76), "io.0." + out_fields(rng, 77), "pi." + in_fields(rng, 78)]:
+            Hs([sh, "fk", m, sh, "sw", sh, "sh.65.0.76a9.1000", "sw", sh, "sh.65.0.76a9.1000"], t33)      # mutate the original
+            Hs(["fk", sh, "sw", m, sh, "sw", sh, "sh.65.0.76a9.1000"], t33)                                # fill one, mutate the other
+        Hs([sh, "cl", "so.1." + out_fields(rng, 79), sh, "cl", "si.1." + in_fields(rng, 80), sh, "sh.65.0.76a9.1000"], t33)
+    # starting states: new / default / re-parsed through every codec (empty cache, same contents), before and after cached calls
+    for f in [65, 67, 193, 3]:
+        sh = "sh.%d.0.ac.7" % f
+        Hs(["def", sh, "ai." + in_fields(rng, 81), sh, "ao." + out_fields(rng, 82), sh, "sh.65.0.ac.7", "so.0." + out_fields(rng, 83), sh, "sh.65.0.ac.7"], t33)
+        Hs(["new.1.5", "ais." + in_elem(rng, 84) + "/" + in_elem(rng, 85), "aos." + out_elem(rng, 86), sh, "sh.65.1.ac.7", "si.1." + in_fields(rng, 87), "sh.65.1.ac.7", sh], t33)
+        for rp in ["fb", "fh", "fj", "fc"]:
+            Hs([sh, "sh.65.0.ac.7", rp, sh, "so.0." + out_fields(rng, 88), rp, sh, "sh.65.0.ac.7", "fk", rp, "si.0." + in_fields(rng, 89), "sh.65.0.ac.7", "sw", "sh.65.0.ac.7"], t33)
     # other starting shapes for the short histories
     for (nin, nout) in [(1, 1), (3, 1), (1, 3)]:
         t = G.mk_tx(rng, nin, nout).hex()
